@@ -320,6 +320,9 @@ type vEnv struct {
 	verifiedOK, verifiedPreOK     bool
 	verifiedHash, verifiedPreHash vhash
 	cached                        []*vPayload
+	nprTs, nprNonce               uint64
+	nprTxs                        []vhash
+	nNPR                          int
 	cls, preMissing               int
 	preAnswerOwed                 bool
 }
@@ -410,6 +413,14 @@ func vNewEnv(n, my int, amevCfg, maxCfg bool) *vEnv {
 			if e.want("C07") {
 				vAssert("C07.O3.newblock", !c.isAntiMEVExtensionEnabled() || c.preBlockProcessed)
 			}
+			if e.want("C15") && c.IsPrimary() {
+				// the primary's own block is built from the values it proposed
+				req := vpProposal(e.d)
+				vAssert("C15.O4.block.proposal", req != nil)
+				if req != nil {
+					vAssert("C15.O4.block", c.Timestamp == req.ts && c.Nonce == req.nonce && vpSameTxs(c.TransactionHashes, req.txs) && c.BlockIndex == req.height)
+				}
+			}
 			return &vBlock{idx: c.BlockIndex, prev: c.PrevHash, ts: c.Timestamp, nonce: c.Nonce, txh: c.TransactionHashes, env: e}
 		}),
 		WithRequestTx[vhash](func(h ...vhash) { e.nRequestTx++ }),
@@ -432,6 +443,7 @@ func vNewEnv(n, my int, amevCfg, maxCfg bool) *vEnv {
 			return p
 		}),
 		WithNewPrepareRequest[vhash](func(ts, nonce uint64, h []vhash) PrepareRequest[vhash] {
+			e.nprTs, e.nprNonce, e.nprTxs, e.nNPR = ts, nonce, h, e.nNPR+1
 			return &vPayload{ts: ts, nonce: nonce, txs: h}
 		}),
 		WithNewPrepareResponse[vhash](func(h vhash) PrepareResponse[vhash] { return &vPayload{prep: h} }),
